@@ -400,20 +400,55 @@ type Recorder struct {
 	Logs map[string][]string
 	// Optional reports whether the call being made may legitimately be skipped.
 	Optional func() bool
-	// OptLogs holds, per name, the log without the optional calls.
-	OptLogs map[string][]string
-	Errs    int
+	// Opt holds, per name and per log entry, whether that call was optional.
+	Opt  map[string][]bool
+	Errs int
 }
 
 func NewRecorder() *Recorder {
-	return &Recorder{Logs: map[string][]string{}, OptLogs: map[string][]string{}}
+	return &Recorder{Logs: map[string][]string{}, Opt: map[string][]bool{}}
 }
 
 func (r *Recorder) note(name, entry string) {
 	r.Logs[name] = append(r.Logs[name], entry)
-	if r.Optional == nil || !r.Optional() {
-		r.OptLogs[name] = append(r.OptLogs[name], entry)
+	r.Opt[name] = append(r.Opt[name], r.Optional != nil && r.Optional())
+}
+
+// Explains reports whether got can be obtained from the reference log of name
+// by deleting only optional entries (order preserved).
+func (r *Recorder) Explains(name string, got []string) bool {
+	full, opt := r.Logs[name], r.Opt[name]
+	// memo[i][j]: full[i:] explains got[j:]
+	memo := map[[2]int]bool{}
+	var rec func(i, j int) bool
+	rec = func(i, j int) bool {
+		if i == len(full) {
+			return j == len(got)
+		}
+		k := [2]int{i, j}
+		if v, ok := memo[k]; ok {
+			return v
+		}
+		res := false
+		if j < len(got) && full[i] == got[j] && rec(i+1, j+1) {
+			res = true
+		} else if opt[i] && rec(i+1, j) {
+			res = true
+		}
+		memo[k] = res
+		return res
 	}
+	return rec(0, 0)
+}
+
+// HasOptional reports whether the reference log of name contains optional calls.
+func (r *Recorder) HasOptional(name string) bool {
+	for _, o := range r.Opt[name] {
+		if o {
+			return true
+		}
+	}
+	return false
 }
 
 func describe(v interface{}) string {
